@@ -33,10 +33,11 @@ theorem C19_filter_mem (ps : List Plugin) (caps : Caps) (p : Plugin) :
     p ∈ filterByCapabilities ps caps ↔ p ∈ ps ∧ satisfied p.req caps = true := by
   rw [C19_filter, List.mem_filter]
 
-/-- Any scan configured from lists that validate, whose detectors' required extractors can be enabled
-automatically (`requiredOK`), passes `EnableRequiredExtractors` and `ValidatePluginRequirements` —
+/-- (`_partial`: the hypothesis `hr` — the detectors' required extractors can be enabled automatically, `requiredOK` —
+is needed, `C19_required_needed`; it is DISCHARGED for the real registry by `C19_required`, giving the
+hypothesis-free `C19_any_selection_valid`.) Any scan configured from lists that validate passes `EnableRequiredExtractors` and `ValidatePluginRequirements` —
 for all name tables, all plugin lists, all capabilities. -/
-theorem C19_enable_valid (fsT stT : Table) (fs st dets : List Plugin) (caps : Caps)
+theorem C19_enable_valid_partial (fsT stT : Table) (fs st dets : List Plugin) (caps : Caps)
     (hfs : ∀ p ∈ fs, satisfied p.req caps = true) (hst : ∀ p ∈ st, satisfied p.req caps = true)
     (hd : ∀ d ∈ dets, satisfied d.req caps = true)
     (hr : ∀ d ∈ dets, ∀ e ∈ d.required, requiredOK fsT stT d.req e) :
@@ -59,11 +60,11 @@ theorem C19_enable_valid (fsT stT : Table) (fs st dets : List Plugin) (caps : Ca
 /-- A scan configured from capability-FILTERED lists never fails requirement validation — whatever was
 selected before filtering (any names, any groups, any hand-made list), as long as the selected
 detectors' required extractors can be enabled automatically. -/
-theorem C19_filtered_selection_valid (fsT stT : Table) (fs st dets : List Plugin) (caps : Caps)
+theorem C19_filtered_selection_valid_partial (fsT stT : Table) (fs st dets : List Plugin) (caps : Caps)
     (hr : ∀ d ∈ dets, ∀ e ∈ d.required, requiredOK fsT stT d.req e) :
     (precheck fsT stT (filterByCapabilities fs caps) (filterByCapabilities st caps)
       (filterByCapabilities dets caps) caps).isOk = true := by
-  apply C19_enable_valid
+  apply C19_enable_valid_partial
   · intro p hp; exact ((C19_filter_mem _ _ _).1 hp).2
   · intro p hp; exact ((C19_filter_mem _ _ _).1 hp).2
   · intro p hp; exact ((C19_filter_mem _ _ _).1 hp).2
@@ -95,7 +96,7 @@ theorem C19_any_selection_valid (fs st dets : List Plugin) (caps : Caps)
     (hd : ∀ d ∈ dets, d ∈ allPlugins detAll) :
     (precheck fsNames stNames (filterByCapabilities fs caps) (filterByCapabilities st caps)
       (filterByCapabilities dets caps) caps).isOk = true :=
-  C19_filtered_selection_valid _ _ _ _ _ _ (fun d h => C19_required d (hd d h))
+  C19_filtered_selection_valid_partial _ _ _ _ _ _ (fun d h => C19_required d (hd d h))
 
 /-- Plugin names are unique across the whole registry (filesystem + standalone + detectors). -/
 theorem C19_names_unique :
@@ -119,8 +120,13 @@ theorem C19_tables_wellformed :
   | [] => rw [hk] at this; cases this
   | _ :: _ :: _ => rw [hk] at this; cases this
 
-/-- Every advertised key (plugin name or group name) resolves, to exactly the plugins registered under
-it, all of which are registered plugins of that kind. -/
+/-- Every key of the name tables (plugin name or group name) resolves, to exactly the plugins registered under
+it, all of which are registered plugins of that kind. Audit note: the first half is close to a tautology of the
+table lookup (keys distinct, member names distinct: `C19_tables_wellformed`) — "advertised" is read as "is a key
+of the table the code consults"; the independent sources of names are the go/ast view of the source
+(`C19_source_agrees`) and the two names the command line hard-codes (`C19_advertised_groups`); the content is
+the second half (a group never yields a plugin that is not registered) and the tie (every key is resolved by
+the real `…FromNames` in the correspondence stream). -/
 theorem C19_resolves_keys :
     (∀ kv ∈ fsNames, fromNames fsNames [kv.1] = .ok kv.2 ∧ ∀ p ∈ kv.2, p ∈ allPlugins fsAll) ∧
     (∀ kv ∈ stNames, fromNames stNames [kv.1] = .ok kv.2 ∧ ∀ p ∈ kv.2, p ∈ allPlugins stAll) ∧
@@ -164,7 +170,7 @@ example : ∃ d ∈ allPlugins detAll, d.required ≠ [] := by decide +kernel
 example : (fromCapabilities detAll ⟨.windows, .offline, false, false⟩).length <
     (fromCapabilities detAll ⟨.linux, .online, true, true⟩).length := by decide +kernel
 
-/-- Sharpness of `C19_enable_valid`: without `requiredOK` the conclusion fails — a detector that runs
+/-- Sharpness of `C19_enable_valid_partial`: without `requiredOK` the conclusion fails — a detector that runs
 anywhere but requires an extractor that needs Windows is auto-enabled into a failing configuration. -/
 theorem C19_required_needed :
     let ext : Plugin := ⟨"x", ⟨.windows, .any, false, false⟩, []⟩
